@@ -99,6 +99,10 @@ var plans = map[string]Plan{
 			{Harness: "hnet", Config: "clean", Quick: 12000, Thorough: 1500000, QuickSec: 45, ThoroughSec: 1500, MemGB: 8},
 			{Harness: "hnet", Config: "omission", Quick: 6000, Thorough: 800000, QuickSec: 25, ThoroughSec: 800, MemGB: 8},
 			{Harness: "hnet", Config: "reportonly", Quick: 2000, Thorough: 200000, QuickSec: 10, ThoroughSec: 250, MemGB: 8},
+			// captures taken with a snap length, captures that start after the client's SYN, TSO-sized segments behind a gap
+			{Harness: "hnet", Config: "snaplen", Quick: 4000, Thorough: 600000, QuickSec: 20, ThoroughSec: 600, MemGB: 8},
+			{Harness: "hnet", Config: "nosyn", Quick: 4000, Thorough: 600000, QuickSec: 20, ThoroughSec: 600, MemGB: 8},
+			{Harness: "hnet", Config: "large", Quick: 1500, Thorough: 200000, QuickSec: 25, ThoroughSec: 600, MemGB: 8},
 		},
 		Rule: "one run = a tape-drawn simulated network: 1..5 TCP connections between 2..4 hosts (tape-chosen IPv4 addresses, ports, ISNs incl. near 2^32 and 2^31), each endpoint a minimal TCP (SYN/SYN-ACK/ACK, MSS option, optional timestamps/SACK-permitted/window-scale, tape-chosen segment cuts, send window, immediate or delayed cumulative ACKs, timeout retransmission with backoff and optionally other boundaries, FIN active/passive/never) sending 0..64 KiB per direction (most runs < 2 KiB); a discrete-event network with its own clock: per-packet delay, loss before the tap, loss after the tap, duplication, hold-back reordering by <= 3 packets of the same direction never across a SYN/FIN, a router fragmenting above a tape-chosen MTU (68..1500, neighbouring fragments sometimes swapped, one fragment sometimes lost), a tap that timestamps and (config omission) omits 1..2 data segments or one of their fragments; the capture is written by independent writers as pcap LE/BE/ns or pcapng LE/BE (1..2 interfaces, options, late IDB, NRB/ISB) over Ethernet (with padding), raw IP, SLL, SLL2 or BSD null, and decoded by the real fq (decode.Decode via the registry; one run in 48 the whole CLI on the simulated OS with a jq query and JSON). Oracle: exactly the captured connections in order of first captured packet, client = SYN sender, ip/port right, each direction's stream equal to the bytes sent (clean) or to the bytes before the first byte missing from the capture (omission), skipped_bytes = 0 when nothing is missing and > 0 when the capture holds data beyond the hole, every fragmented datagram whose fragments are all captured listed in .ipv4_reassembled with its addresses, protocol and payload; generator self-check (tagged HARNESS): its own TCP delivers every stream, fragments reassemble to the datagram sent, checksums verify, bounded liveness after the last fault. reportonly (SYN/FIN swaps, data before SYN, displacement <= 8, pcapng stated section length) only counts mismatches. distinct = FNV of the capture bytes; non-trivial = at least one connection carried data",
 		Real: []string{"format/pcap (pcap, pcapng)", "format/inet/flowsdecoder", "gopacket reassembly + ip4defrag", "format/inet (ether8023_frame, sll/sll2/loopback, ipv4_packet, tcp_segment)", "pkg/decode", "pkg/interp + jq + JSON output (1 run in 48)"},
@@ -107,8 +111,10 @@ var plans = map[string]Plan{
 			"IPv4 without IP options; MTU >= 68; retransmissions carry identical content; no RST or keep-alives",
 			"tap omission is judged from what the capture actually holds: an omitted segment that is later retransmitted is not a hole",
 			"has_start/has_end are not checked; reorderings beyond what the statement names are report-only",
+			"snaplen: the snap length never cuts a link/IP/TCP header and there is no fragmenting router",
+			"when the capture does not begin with the client's SYN the client/server label is not asserted, only that each (address, port) carries its own bytes",
 		}, commonAssumptions...),
-		ExpectProbes: []string{"loss_before_tap", "loss_after_tap", "duplicate", "reorder", "fragment", "frag_reorder", "tap_omission", "seq_wrap", "retransmission", "full_cli_runs", "hole_with_later_data", "reassembled_datagrams"},
+		ExpectProbes: []string{"loss_before_tap", "loss_after_tap", "duplicate", "reorder", "fragment", "frag_reorder", "tap_omission", "seq_wrap", "retransmission", "full_cli_runs", "hole_with_later_data", "reassembled_datagrams", "snaplen_payload_cut", "syn_omission", "first_packet_not_client_syn", "large_segment", "large_segment_behind_gap"},
 	},
 	"C15": {
 		Stages: []Stage{
